@@ -284,6 +284,7 @@ func TestVerif_C16_Trace(t *testing.T) {
 	kit.RecordBcast(t, rep, c16Target, tr, kit.IntEnv("VERIF_RUNS", 30), 16)
 	kit.SeqnoBcast(t, rep, c16Target, tr, kit.IntEnv("VERIF_SEQNO_ROUNDS", 4))
 	kit.ForceBcast(t, rep, c16Target, tr, kit.IntEnv("VERIF_FORCE_REPS", 40))
+	kit.IdleCancelBcast(t, rep, c16Target, tr, kit.IntEnv("VERIF_FORCE_REPS", 40))
 	tr.Close()
 	tro := kit.NewTracer(t, "trace_local_overflow")
 	kit.OverflowBcast(t, rep, c16Target, tro)
